@@ -45,11 +45,13 @@ import (
 
 var c04cIPs = []string{"10.1.2.3", "10.1.2.4", "2001:db8::1", "::ffff:10.9.9.9", "fe80::1%eth0", "192.168.7.20"}
 var c04cNets = []string{"10.0.0.0/8", "10.1.0.0/16", "10.1.2.3/24", "2001:db8::/32", "192.168.0.0/16"}
-var c04cMACs = []string{"aa:bb:cc:dd:ee:01", "AA-BB-CC-DD-EE-02", "00:00:00:00:fe:80:00:00:00:00:00:00:02:00:5e:10:00:00:00:01"}
+var c04cMACs = []string{"aa:bb:cc:dd:ee:01", "AA-BB-CC-DD-EE-02", "00:00:00:00:fe:80:00:00:00:00:00:00:02:00:5e:10:00:00:00:01",
+	c04cMAC8, "02:00:5e:10:00:00:00:02"}
 
-// An 8-byte MAC is written back in a form that the next start-up reads as an
-// IPv6 address (finding C04-config-mac8-reloaded-as-ipv6): only in its own
-// constructed cases.
+// An 8-byte MAC: its colon form is valid IPv6 text, which setID tries first
+// (the second universe entry above IS the address 2:0:5e:10::2 for that
+// reason); before /repo 5c9e5b4 IDs() wrote the colon form and the client came
+// back from a restart owning the address 2:0:5e:10::1 instead of the MAC.
 const c04cMAC8 = "02-00-5e-10-00-00-00-01"
 var c04cCIDs = []string{"cli1", "Phone", "tv-2"}
 var c04cBadIDs = []string{"", "bad id!"}
@@ -98,6 +100,7 @@ type c04cSpec struct {
 	bsIDsKey int // 0 no ids key, 1 "ids: []", 2 listed
 	bsIDs    []string
 	sched    c04cSched
+	noSched  int // section present: 0 schedule key present, 1 key absent, 2 schedule: null
 	flag     map[string]bool // value written
 	flagKey  map[string]bool // key present
 	cacheKey bool
@@ -144,11 +147,17 @@ func (s *c04cSpec) yaml(b *strings.Builder) {
 	case 1:
 		fmt.Fprintf(b, "  blocked_services: null\n")
 	case 2:
-		fmt.Fprintf(b, "  blocked_services:\n    schedule:\n      time_zone: %s\n", c04cZones[s.sched.zone])
-		for d, m := range s.sched.mins {
-			if m != [2]int{} {
-				fmt.Fprintf(b, "      %s:\n        start: %dm\n        end: %dm\n", c04cDays[d], m[0], m[1])
+		fmt.Fprintf(b, "  blocked_services:\n")
+		switch s.noSched {
+		case 0:
+			fmt.Fprintf(b, "    schedule:\n      time_zone: %s\n", c04cZones[s.sched.zone])
+			for d, m := range s.sched.mins {
+				if m != [2]int{} {
+					fmt.Fprintf(b, "      %s:\n        start: %dm\n        end: %dm\n", c04cDays[d], m[0], m[1])
+				}
 			}
+		case 2:
+			fmt.Fprintf(b, "    schedule: null\n")
 		}
 		switch s.bsIDsKey {
 		case 1:
@@ -178,8 +187,14 @@ func (s *c04cSpec) wantBlocked() (ids []string, sc c04cSched) {
 	if s.bsIDsKey == 2 {
 		ids = s.bsIDs
 	}
+	if s.noSched != 0 {
+		return ids, c04cSched{}
+	}
 	return ids, s.sched
 }
+
+// the file gives the client a section without a schedule (nil pointer)
+func (s *c04cSpec) nilSched() bool { return s.bs == 2 && s.noSched != 0 }
 
 func (s *c04cSpec) wantSS() (c filtering.SafeSearchConfig) {
 	if !s.ssKey {
@@ -307,12 +322,30 @@ func c04cBlockedVal(ids []string, sc c04cSched) string {
 	return vfApp("mkb", c04cStrs(ids), c04cCoqSched(sc), vfN(uint64(sc.zone)))
 }
 
+// a stored section: a nil schedule is printed as the empty one in Local (the
+// model's placeholder), the nil itself is the fourth field of mkx
 func c04cBlocked(b *filtering.BlockedServices) string {
 	if b == nil {
 		return vfOpt("blocked", false, "")
 	}
 	sc, _, _ := c04cReadSched(b.Schedule)
+	if b.Schedule == nil {
+		sc = c04cSched{}
+	}
 	return vfOpt("blocked", true, c04cBlockedVal(b.IDs, sc))
+}
+
+// a section of a file object
+func c04cFileBlocked(b *filtering.BlockedServices) string {
+	if b == nil {
+		return vfOpt("fblocked", false, "")
+	}
+	sched := vfOpt("Schedule.weekly * N", false, "")
+	if b.Schedule != nil {
+		sc, _, _ := c04cReadSched(b.Schedule)
+		sched = vfOpt("Schedule.weekly * N", true, vfPair(c04cCoqSched(sc), vfN(uint64(sc.zone))))
+	}
+	return vfOpt("fblocked", true, vfApp("mkfb", c04cStrs(b.IDs), sched))
 }
 
 func c04cSS(c filtering.SafeSearchConfig) string {
@@ -343,13 +376,14 @@ func c04cClient(u *c04cUIDs, p *client.Persistent) string {
 		vfBool(p.SafeBrowsingEnabled), vfBool(p.ParentalEnabled), vfBool(p.UseOwnBlockedServices),
 		c04cBlocked(p.BlockedServices), vfBool(p.IgnoreQueryLog), vfBool(p.IgnoreStatistics),
 		c04cStrs(p.Tags), c04cStrs(p.Upstreams))
-	x := vfApp("mkx", c04cSS(p.SafeSearchConf), vfBool(p.UpstreamsCacheEnabled), vfN(uint64(p.UpstreamsCacheSize)))
+	x := vfApp("mkx", c04cSS(p.SafeSearchConf), vfBool(p.UpstreamsCacheEnabled), vfN(uint64(p.UpstreamsCacheSize)),
+		vfBool(p.BlockedServices != nil && p.BlockedServices.Schedule == nil))
 	return vfPair(c, x)
 }
 
 func c04cObj(u *c04cUIDs, o *clientObject) string {
 	return vfApp("mko", vfBytes(o.Name), c04cIDList(o.IDs), c04cStrs(o.Tags), c04cStrs(o.Upstreams), vfN(u.num(o.UID)),
-		c04cSS(o.SafeSearchConf), c04cBlocked(o.BlockedServices), vfN(uint64(o.UpstreamsCacheSize)), vfBool(o.UpstreamsCacheEnabled),
+		c04cSS(o.SafeSearchConf), c04cFileBlocked(o.BlockedServices), vfN(uint64(o.UpstreamsCacheSize)), vfBool(o.UpstreamsCacheEnabled),
 		vfBool(o.UseGlobalSettings), vfBool(o.FilteringEnabled), vfBool(o.ParentalEnabled), vfBool(o.SafeBrowsingEnabled),
 		vfBool(o.UseGlobalBlockedServices), vfBool(o.IgnoreQueryLog), vfBool(o.IgnoreStatistics))
 }
@@ -422,6 +456,7 @@ type c04cGen struct {
 	errText           string
 	stored            []*client.Persistent
 	acfs              []*filtering.Settings
+	panics            []bool // ApplyAdditionalFiltering panicked for the probe
 	saved             []*clientObject
 	coq               string
 }
@@ -457,11 +492,12 @@ func c04cGlobal() filtering.Settings {
 	return filtering.Settings{FilteringEnabled: true, SafeBrowsingEnabled: true}
 }
 
-func c04cLoad(t *testing.T, u *c04cUIDs, objs []*clientObject) (g *c04cGen) {
+func c04cLoad(t *testing.T, dataDir string, u *c04cUIDs, objs []*clientObject) (g *c04cGen) {
 	g = &c04cGen{stage: -1}
 	ctx, cancel := context.WithTimeout(context.Background(), 20*time.Second)
 	defer cancel()
 	cc := &clientsContainer{testing: true}
+	fconf := &filtering.Config{DataDir: dataDir, BlockedServices: &filtering.BlockedServices{Schedule: schedule.EmptyWeekly()}}
 	var err error
 	func() {
 		defer func() {
@@ -469,7 +505,7 @@ func c04cLoad(t *testing.T, u *c04cUIDs, objs []*clientObject) (g *c04cGen) {
 				err = fmt.Errorf("panic: %v", rec)
 			}
 		}()
-		err = cc.Init(ctx, slogutil.NewDiscardLogger(), objs, client.EmptyDHCP{}, nil, nil, &filtering.Config{}, newSignalHandler(nil, nil))
+		err = cc.Init(ctx, slogutil.NewDiscardLogger(), objs, client.EmptyDHCP{}, nil, nil, fconf, newSignalHandler(nil, nil))
 	}()
 	if err != nil {
 		g.errText = err.Error()
@@ -510,11 +546,32 @@ func c04cLoad(t *testing.T, u *c04cUIDs, objs []*clientObject) (g *c04cGen) {
 		g.acfs = append(g.acfs, &s)
 		ac = append(ac, vfOpt("settings", true, c04cSettings(&s)))
 	}
+	// the request path: a real DNSFilter whose ApplyClientFiltering callback
+	// Init has set to the storage; a panic is an observable
+	flt, ferr := filtering.New(fconf, nil)
+	if ferr != nil {
+		t.Fatal(ferr)
+	}
+	var pn []string
+	for _, q := range c04cProbes {
+		panicked := false
+		func() {
+			defer func() {
+				if rec := recover(); rec != nil {
+					panicked = true
+				}
+			}()
+			flt.ApplyAdditionalFiltering(q.a, q.cid, flt.Settings())
+		}()
+		g.panics = append(g.panics, panicked)
+		pn = append(pn, vfBool(panicked))
+	}
+	flt.Close()
 	g.saved = cc.forConfig()
 	for _, o := range g.saved {
 		sv = append(sv, c04cObj(u, o))
 	}
-	g.coq = vfApp("ROk", vfList("client * extra", st), vfList("option settings", ac), vfList("cobj", sv))
+	g.coq = vfApp("ROk", vfList("client * extra", st), vfList("option settings", ac), vfList("bool", pn), vfList("cobj", sv))
 	return g
 }
 
@@ -586,6 +643,7 @@ type c04cRun struct {
 	out   *vfOut
 	known []string
 	toks  map[string]bool
+	dataDir string
 }
 
 func (h *c04cRun) addrOK(tok string) (ok bool) {
@@ -610,6 +668,10 @@ func (h *c04cRun) run(tag string, specs []*c04cSpec) {
 	t := h.t
 	var doc strings.Builder
 	for _, s := range specs {
+		if s.bs == 2 && s.noSched != 0 && s.bsIDsKey == 0 {
+			// a section needs at least one key
+			s.bsIDsKey = 1
+		}
 		s.yaml(&doc)
 	}
 	var objs []*clientObject
@@ -640,7 +702,7 @@ func (h *c04cRun) run(tag string, specs []*c04cSpec) {
 		}
 	}
 
-	g1 := c04cLoad(t, u, objs)
+	g1 := c04cLoad(t, h.dataDir, u, objs)
 	wantStage, wantIdx, why := c04cExpect(specs, h.known)
 	if g1.stage != wantStage || (wantStage >= 0 && g1.idx != wantIdx) {
 		if g1.stage < 0 {
@@ -716,7 +778,7 @@ func (h *c04cRun) run(tag string, specs []*c04cSpec) {
 					}
 				}
 			}
-			g2 = c04cLoad(t, u, objs2)
+			g2 = c04cLoad(t, h.dataDir, u, objs2)
 			if g2.coq != g1.coq {
 				res2 = vfOpt("cres", true, g2.coq)
 			}
@@ -878,8 +940,27 @@ func (h *c04cRun) checkAsWritten(s *c04cSpec, p *client.Persistent, g1 *c04cGen,
 		if !slices.Equal(p.BlockedServices.IDs, wantIDs) {
 			bad("blocked_services.ids", p.BlockedServices.IDs, wantIDs)
 		}
-		if !ok || sc != wantSched {
+		if s.nilSched() {
+			if p.BlockedServices.Schedule != nil {
+				bad("blocked_services.schedule", text, "none (no schedule key)")
+			}
+			cls["cfg-bs-nil-schedule"] = true
+		} else if !ok || sc != wantSched {
 			bad("blocked_services.schedule", text, fmt.Sprintf("%s%v", c04cZones[wantSched.zone], wantSched.mins))
+		}
+	}
+	// OBSERVATION, not a failure: with a nil schedule the request path panics
+	// for a client applying its own blocked services; any OTHER panic is one
+	for i, q := range c04cProbes {
+		if g1.acfs[i].ClientName != s.name {
+			continue
+		}
+		want := s.nilSched() && !s.f("use_global_blocked_services")
+		if g1.panics[i] && want {
+			cls["cfg-nil-schedule-panic"] = true
+		} else if g1.panics[i] != want {
+			fail("request-panic", fmt.Sprintf("ApplyAdditionalFiltering(%v, %q) for client %q: panicked=%v, expected %v (nil schedule %v, use_global_blocked_services %v)",
+				q.a, q.cid, s.name, g1.panics[i], want, s.nilSched(), s.f("use_global_blocked_services")))
 		}
 	}
 
@@ -923,7 +1004,7 @@ func (h *c04cRun) checkAsWritten(s *c04cSpec, p *client.Persistent, g1 *c04cGen,
 		default:
 			cls["cfg-bs-with-ids"] = true
 		}
-		if s.sched.mins != [7][2]int{} {
+		if s.noSched == 0 && s.sched.mins != [7][2]int{} {
 			cls["cfg-bs-with-schedule"] = true
 		}
 	}
@@ -974,15 +1055,7 @@ func (h *c04cRun) checkAsWritten(s *c04cSpec, p *client.Persistent, g1 *c04cGen,
 // (b), (c): generation 2 against generation 1
 func (h *c04cRun) checkSecond(g1, g2 *c04cGen, fail func(k, msg string)) {
 	if g2.stage >= 0 {
-		k := "reload-refused"
-		for _, p := range g1.stored {
-			for _, m := range p.MACs {
-				if len(m) == 8 && g2.stage == 1 && g2.class == 5 {
-					k = "mac8-reloaded-as-ipv6"
-				}
-			}
-		}
-		fail(k, fmt.Sprintf("the section forConfig wrote is refused at the next start-up: %s", g2.errText))
+		fail("reload-refused", fmt.Sprintf("the section forConfig wrote is refused at the next start-up: %s", g2.errText))
 		return
 	}
 	if len(g2.stored) != len(g1.stored) {
@@ -991,16 +1064,14 @@ func (h *c04cRun) checkSecond(g1, g2 *c04cGen, fail func(k, msg string)) {
 	}
 	for i, p := range g1.stored {
 		if d := c04cDiff(c04cClientFields(p), c04cClientFields(g2.stored[i])); d != "" {
-			k := "reload-field"
-			for _, m := range p.MACs {
-				if len(m) == 8 && strings.HasPrefix(d, "ids=") {
-					k = "mac8-reloaded-as-ipv6"
-				}
-			}
-			fail(k, fmt.Sprintf("client %q (identifiers in the registry: %q) changes across save and restart: (before) %s (after)", p.Name, p.IDs(), d))
+			fail("reload-field", fmt.Sprintf("client %q (identifiers in the registry: %q) changes across save and restart: (before) %s (after)", p.Name, p.IDs(), d))
 		}
 	}
 	for i := range g1.acfs {
+		if g1.panics[i] != g2.panics[i] {
+			q := c04cProbes[i]
+			fail("reload-panic", fmt.Sprintf("request (%q, %v): panicked=%v before the restart, %v after", q.cid, q.a, g1.panics[i], g2.panics[i]))
+		}
 		if a, b := c04cSettings(g1.acfs[i]), c04cSettings(g2.acfs[i]); a != b {
 			q := c04cProbes[i]
 			fail("reload-effective", fmt.Sprintf("request (%q, %v) gets %s before the restart and %s after", q.cid, q.a, a, b))
@@ -1119,6 +1190,9 @@ func c04cRandSpec(r *vfRand, name string, pool *[]string, errs bool) *c04cSpec {
 		s.bs = 2
 		s.bsIDsKey = r.Intn(3)
 		s.sched = c04cRandSched(r)
+		if r.Chance(1, 6) {
+			s.noSched = 1 + r.Intn(2)
+		}
 		if s.bsIDsKey == 2 {
 			for _, id := range c04cServices {
 				if r.Chance(1, 2) {
@@ -1224,11 +1298,25 @@ func c04cPrelude(h *c04cRun) {
 	zero.uid = c04cZeroUID
 	zero.tagsKey, zero.upsKey = true, true
 	h.run("prelude-full", []*c04cSpec{full, bare, zero})
-	// an 8-byte MAC across save and restart (KNOWN to come back as an IPv6
-	// address; with the address owned by another client the restart fails)
+	// an 8-byte MAC across save and restart (before /repo 5c9e5b4 it came back
+	// as the IPv6 address 2:0:5e:10::1; with that address owned by another
+	// client the restart failed)
 	h.run("prelude-mac8", []*c04cSpec{c04cNewSpec("eui64", c04cMAC8, "cli1"), c04cNewSpec("other", "10.1.2.3")})
-	// (not run, same finding: with {eui64: [MAC8]}, {v6: ["2:0:5e:10::1"]} the
-	// restart fails with 'another client "eui64" uses the same IP')
+	h.run("prelude-mac8", []*c04cSpec{c04cNewSpec("eui64", c04cMAC8), c04cNewSpec("v6", "2:0:5e:10::2", "2:0:5e:10::1")})
+	// a section without a schedule: stored with a nil schedule, kept across the
+	// restart; requests of a client applying it panic (observation)
+	nos := func(name, id string, global bool, variant, idsKey int, ids []string) *c04cSpec {
+		sp := c04cNewSpec(name, id).set("use_global_blocked_services", global).blocked(2, idsKey, ids, none)
+		sp.noSched = variant
+		return sp
+	}
+	h.run("prelude-nil-schedule", []*c04cSpec{
+		nos("nokey_own", "10.1.2.3", false, 1, 2, []string{"youtube"}),
+		nos("null_own", "cli1", false, 2, 1, nil),
+		nos("nokey_global", "2001:db8::1", true, 1, 2, []string{"tiktok"}),
+		nos("empty_own", "192.168.7.20", false, 1, 0, nil),
+		c04cNewSpec("with_sched", "fe80::1%eth0").set("use_global_blocked_services", false).blocked(2, 2, []string{"9gag"}, night),
+	})
 	// start-up refusals
 	h.run("prelude-error-clash", []*c04cSpec{c04cNewSpec("a", "10.1.2.3", "cli1"), c04cNewSpec("b", "10.1.2.4", "CLI1")})
 	h.run("prelude-error-clash", []*c04cSpec{c04cNewSpec("a", "10.1.2.3"), c04cNewSpec("b", "10.1.2.4"), c04cNewSpec("a", "cli1")})
@@ -1258,7 +1346,7 @@ func TestVerifC04(t *testing.T) {
 	// (home.initConfig does this at start-up)
 	filtering.InitModule()
 
-	h := &c04cRun{t: t, out: out, toks: map[string]bool{}}
+	h := &c04cRun{t: t, out: out, toks: map[string]bool{}, dataDir: t.TempDir()}
 	for _, id := range slices.Concat(c04cServices, c04cBadServices) {
 		if (&filtering.BlockedServices{IDs: []string{id}}).Validate() == nil {
 			h.known = append(h.known, id)
